@@ -141,6 +141,70 @@ def run_fasta(shard, ctx, origin_ref):
             ctx.violation(f"cache-file:{sig}", f"{msg}\n{txt[:500]}", {"kind": "scaffolds", "scaffolds": []})
 
 
+def fault_leg(ctx, cr, rng):
+    """Injected fault: the FASTA writer fails (as on a full disk) part-way through an assembly.
+    Whatever AGP files exist afterwards must still describe the FASTA written beside them."""
+    import errno
+
+    from tola.fasta.stream import FastaStream
+    from vf import cli_runs
+
+    cli_runs.clear_outputs(cr)
+    orig = FastaStream.write_scaffold
+    state = {"n": 0, "fail_at": rng.randint(0, 3)}
+
+    def failing(self, scaffold):
+        if state["n"] == state["fail_at"]:
+            self.out.write(f">{scaffold.name}\nACGT".encode())
+            state["n"] += 1
+            raise OSError(errno.ENOSPC, "No space left on device (injected)")
+        state["n"] += 1
+        return orig(self, scaffold)
+
+    FastaStream.write_scaffold = failing
+    try:
+        res = cli_runs.run_pretext_to_asm(cr, out_name="out.fa")
+    finally:
+        FastaStream.write_scaffold = orig
+    ctx.case()
+    # as at process exit: files the failed run left open are flushed when their last reference goes
+    import gc
+
+    import io
+
+    # (flush while the failed run's frames - and so its file objects - are still alive: once the
+    #  traceback cycle is collected, finalisation order is arbitrary and buffered data may be lost)
+    for o in gc.get_objects():
+        try:
+            if isinstance(o, (io.TextIOWrapper, io.BufferedWriter)) and not o.closed and str(getattr(o, "name", "")).startswith(str(cr["dir"])):
+                o.flush()
+        except Exception:  # noqa: BLE001
+            pass
+    code = res["exit_code"]
+    res = {"exit_code": code}
+    gc.collect()
+    if state["n"] <= state["fail_at"]:
+        ctx.count("fault:not-reached")
+        return
+    ctx.count("fault:fasta-write-failed")
+    if res["exit_code"] == 0:
+        ctx.violation("fault:write-error-ignored", "FASTA write failed but the run exited 0", cli_runs.case_of(cr))
+        return
+    for p in sorted(cr["dir"].glob("out.*.agp")):
+        fa = p.with_suffix(".fa")
+        if not fa.exists():
+            continue
+        for h in __import__("logging").root.handlers:
+            h.flush()
+        recs = {n: len(seq) for n, seq, _ in fasta_ref.split_records(fa.read_bytes())}
+        _, ends = agp_ref.validate(p.read_text())
+        bad = {n: (e, recs.get(n)) for n, e in ends.items() if recs.get(n) != e}
+        if bad:
+            ctx.violation("fault:agp-describes-fasta-records-that-were-not-written", f"{p.name}: object end vs record length {dict(list(bad.items())[:3])}", cli_runs.case_of(cr))
+            return
+    ctx.count("fault:ok")
+
+
 def run_cli(shard, ctx, origin_ref):
     from vf import cli_runs
 
@@ -173,6 +237,9 @@ def run_cli(shard, ctx, origin_ref):
                 ctx.count("cli:small-stream-buffer")
             if res["exit_code"] != 0:
                 ctx.count("cli:error-exit")
+                continue
+            if m == 1 and i % 2 == 1:
+                fault_leg(ctx, cr, rng)
                 continue
             for p in sorted(cr["dir"].glob("out.*.agp")):
                 txt = p.read_text()
@@ -235,5 +302,6 @@ def gates(c, tier):
         "pretext-to-asm:agp-texts": 50,
         "cli:agp-with-fasta": 10,
         "cli:small-stream-buffer": 10,
+        "fault:fasta-write-failed": 5,
     }
     return [f"{k}>={v} (got {c.get(k, 0)})" for k, v in need.items() if c.get(k, 0) < v]
